@@ -22,6 +22,8 @@ def key_of(clause, label, prog, tr, l):
             return "obs:%s:commands_of_last_persisted_tick_not_replayed" % clause
         if rec["pending_retry"]:
             return "obs:%s:delayed_retry_in_timer_heap_at_crash" % clause
+        if rec.get("buffered_retry"):
+            return "obs:%s:due_retry_in_tick_buffer_at_crash" % clause
     if clause in ("finished_run_was_rerun", "finished_run_not_finalized") and rec["res"].get("idle_marked_at_restart"):
         return "obs:%s:handler_stored_idle_is_reloaded_on_demand_not_finalized" % clause
     return "obs:" + clause
